@@ -137,7 +137,7 @@ func Generate(prop string, r *sim.Rand, tier string) *sim.Plan {
 	// replacement of the head block (rollback + re-execution inside the executor): on the judged replica of the IBTP,
 	// timeout, group and lifecycle profiles, on the other replicas of C01
 	switch prop {
-	case "C02", "C04", "C05", "C06", "C16":
+	case "C02", "C04", "C05", "C06", "C16", "C03", "C07", "C14", "C15", "C17":
 		if r.Chance(0.3) {
 			cfg.Replicas[0].Compete = []int{60, 150, 400}[r.Intn(3)]
 		}
@@ -450,6 +450,10 @@ func (g *gen) step(prop string) []CStep {
 			return []CStep{g.transfer()}
 		}
 	case "C17":
+		if r.Chance(0.03) {
+			// the outsider applies for an appchain of its own, naming a second administrator, and withdraws the application
+			return []CStep{CStep{Op: "occupycycle", A: r.Intn(8), N: r.Intn(6), B: r.Intn(1000)}}
+		}
 		switch r.Weighted([]int{14, 3, 4, 1}) {
 		case 0:
 			return []CStep{g.call()}
